@@ -374,6 +374,8 @@ def witness_cases(draw, big):
 def enum_pushlens(tier):
     for n in range(1, 601):
         yield {"n": n}
+    for n in (65534, 65535, 65536, 65537, 70000):  # PUSHDATA2/PUSHDATA4 boundary: cheap enough for every run
+        yield {"n": n}
     if tier == "thorough":
         for n in list(range(65530, 65541)) + list(range(69990, 70001)):
             yield {"n": n}
@@ -385,7 +387,7 @@ def _targets(tier):
         Target("asm-disasm", check_asm, strategy=lambda tier: asm_cases(big), budget={"quick": 4000, "thorough": 80000},
                required=["nt:pushdata1", "nt:pushdata2"] + (["nt:pushdata4"] if big else [])),
         Target("disasm-asm", check_opbytes, strategy=lambda tier: opbyte_cases(big), budget={"quick": 3000, "thorough": 60000}),
-        Target("push-lengths", check_pushlen, enumerate_=enum_pushlens, required=["nt:pushdata1", "nt:pushdata2", "nt:boundary-len"], exhaustive=True),
+        Target("push-lengths", check_pushlen, enumerate_=enum_pushlens, required=["nt:pushdata1", "nt:pushdata2", "nt:pushdata4", "nt:boundary-len"], exhaustive=True),
         Target("witness", check_witness, strategy=lambda tier: witness_cases(big), budget={"quick": 3000, "thorough": 60000},
                required=["nt:wit-empty", "nt:wit-item>=253", "nt:wit-item-0"] + (["nt:wit-count>=253"] if big else [])),
         Target("builders", check_builder, enumerate_=enum_builders,
